@@ -97,6 +97,8 @@ def mk_register(kind="reg3"):
 
         lay = RegisterLayout([[0.0, 0.0], [5.0, 0.0], [0.0, 5.0], [5.0, 5.0], [10.0, 0.0], [10.0, 5.0]], slug="lay6")
         return lay.define_register(0, 2, 1, qubit_ids=("q0", "q1", "q2"))
+    if kind == "regint":  # integer ids, the first one is 0 (a falsy id)
+        return Register({i: REG_COORDS[k] for i, k in enumerate(("q0", "q1", "q2"))})
     if kind == "mapped3":  # the concrete register that mappable3 resolves to with qubits={"q0": 1, "q1": 4}
         from pulser.register.register_layout import RegisterLayout
 
